@@ -272,6 +272,24 @@ impl AelysVec {
         }
     }
 
+    /// Grows the backing storage to hold exactly `additional` more elements (no amortised slack).
+    pub fn reserve_exact(&mut self, additional: usize) {
+        match &mut self.data {
+            VecData::Ints(v) => v.reserve_exact(additional),
+            VecData::Floats(v) => v.reserve_exact(additional),
+            VecData::Bools(v) => v.reserve_exact(additional),
+            VecData::Objects(v) => v.reserve_exact(additional),
+        }
+    }
+
+    /// Bytes one element occupies in the backing storage (what `size_bytes` charges per slot).
+    pub fn elem_size(&self) -> usize {
+        match &self.data {
+            VecData::Bools(_) => 1,
+            _ => 8,
+        }
+    }
+
     pub fn clear(&mut self) {
         match &mut self.data {
             VecData::Ints(v) => v.clear(),
